@@ -226,7 +226,9 @@ def run_shard(shard, ctx):
                 Sy = objs.spd_batch(Dy, R, vi, seed, tag, diag=kind in ("diag", "identity_diag"))
                 if kind == "nncontrol":
                     Sy = np.tile(Sy[:1], (R, 1, 1))
-                s, kw, (M, b, Sy) = objs.mk_cond(kind, M, b, Sy)
+                # the specialised object is built through a different constructor argument combination per value index
+                ctor = "Sigma" if kind == "nncontrol" else {0: "Sigma", 100: "Lambda"}.get(vi, "all")
+                s, kw, (M, b, Sy) = objs.mk_cond(kind, M, b, Sy, ctor=ctor)
                 g = conditional.ConditionalGaussianPDF(M=J(M), b=J(b), Sigma=J(Sy))
                 if kind == "nncontrol":
                     # the specialised side takes u, the general side is the plain conditional with M(u), b(u)
